@@ -93,6 +93,21 @@ for k in (1, 2, 3):
             for last in EOLS:
                 s = "".join(l + e for l, e in zip(lines, list(eols) + [last]))
                 check(s)
+# rendered-with-checksum lines for all line numbers 0..299 of three commands: covers every checksum value, 0 included
+n_zero = 0
+for cmd in ("G0 X100 Y100", "G1 X1 E.5", "M105"):
+    for n in range(300):
+        g = GcodeParser().parse("N%d %s" % (n, cmd))
+        text = g.stringify(includeComment=False, includeEol=False)
+        cases += 1
+        nontrivial.add(text)
+        r = GcodeParser().parse(text)
+        if r.checksum == 0:
+            n_zero += 1
+        try:
+            r.validate()
+        except ValueError as e:
+            violations.append(classify("C18.checksum", text, "rendered %r does not validate: %s" % (text, e)))
 if cases:
     samples = ["G0*1\nG0", "   N123 G28 X", ALPHABET[1] + ALPHABET[8] + " " + ALPHABET[2] + ALPHABET[9]]
 emit({"name": "bounded/parser-roundtrip", "bounded": True,
